@@ -255,7 +255,15 @@ pub fn pos_from_board(b: &Board) -> Result<Pos, String> {
 
 /// C17 second half: the moves really examined at every quiescence node of a real search.
 fn c17_search_log(p: &Pos, depth: u8, st: &mut Stats, origin: &str) {
-    c17_search_log_after(&[], None, p, depth, st, origin)
+    c17_search_log_after(&[], None, p, depth, st, origin, false)
+}
+
+/// Direct form: search `p` to `depth` on a fresh engine (every searched node now has a table entry with its
+/// best move — quiet moves and castles among them), then run the engine's own quiescence search, logged, on
+/// `p` and on every position the main search expanded: what it examines there must still be exactly the
+/// tactical moves, whatever the tables remember about those positions.
+fn c17_quiesce_after_search(p: &Pos, depth: u8, st: &mut Stats, origin: &str) {
+    c17_search_log_after(&[(p.clone(), depth)], None, p, depth, st, origin, true)
 }
 
 /// `earlier`: positions (with depths) searched first on the SAME engine without logging — as in a
@@ -263,7 +271,7 @@ fn c17_search_log(p: &Pos, depth: u8, st: &mut Stats, origin: &str) {
 /// have entries in the engine's tables.
 /// `game_cmd`: a position command (a game leading to `p`) given to the engine's own handler first, so
 /// that the search runs with the game history on record.
-fn c17_search_log_after(earlier: &[(Pos, u8)], game_cmd: Option<&str>, p: &Pos, depth: u8, st: &mut Stats, origin: &str) {
+fn c17_search_log_after(earlier: &[(Pos, u8)], game_cmd: Option<&str>, p: &Pos, depth: u8, st: &mut Stats, origin: &str, direct: bool) {
     let b = eng::board_from_pos(p);
     let r = engine_call(|| {
         let mut holder = crate::uci::Flounder::new();
@@ -271,15 +279,49 @@ fn c17_search_log_after(earlier: &[(Pos, u8)], game_cmd: Option<&str>, p: &Pos, 
             holder.verif_handle_command(cmd);
         }
         let s = holder.verif_searcher();
+        if direct {
+            s.verif.nlog = Some(Vec::new());
+        }
         for (q, d) in earlier.iter() {
             s.verif_timer().node_limit = Some(150_000);
             s.find_best_move(&eng::board_from_pos(q), *d, None);
+        }
+        if direct {
+            // quiescence called directly on the root and on the positions the main search expanded
+            let nl = s.verif.nlog.take().unwrap_or_default();
+            let mut seen = std::collections::HashSet::new();
+            let mut targets = vec![b];
+            for (nb, _, rem, how) in nl.iter() {
+                if *how == 2 && *rem >= 1 && targets.len() < 120 {
+                    if let Ok(q) = pos_from_board(nb) {
+                        if seen.insert(q.key()) {
+                            targets.push(*nb);
+                        }
+                    }
+                }
+            }
+            s.verif.qlog = Some(Vec::new());
+            s.verif.qexamined = Some(Vec::new());
+            let (lo, hi) = Searcher::verif_window();
+            for t in targets.iter() {
+                let now = s.verif_nodes();
+                s.verif_timer().node_limit = Some(now + 4_000);
+                s.verif_quiesce(t, lo, hi);
+            }
+            s.verif_timer().node_limit = None;
+            return (s.verif.qlog.take().unwrap(), s.verif.qexamined.take().unwrap(), targets.len());
         }
         s.verif.qlog = Some(Vec::new());
         s.verif.qexamined = Some(Vec::new());
         s.verif_timer().node_limit = Some(60_000); // bounds the log; an interrupted search still logs real nodes
         s.find_best_move(&b, depth, None);
-        (s.verif.qlog.take().unwrap(), s.verif.qexamined.take().unwrap())
+        (s.verif.qlog.take().unwrap(), s.verif.qexamined.take().unwrap(), 0)
+    });
+    let r = r.map(|(a, b2, n)| {
+        if direct {
+            st.add("quiescence_called_directly_on_positions_the_main_search_had_expanded", n as u64);
+        }
+        (a, b2)
     });
     let (log, examined) = match r {
         Ok(l) => l,
@@ -330,6 +372,7 @@ fn c17_search_log_after(earlier: &[(Pos, u8)], game_cmd: Option<&str>, p: &Pos, 
                         ("depth", J::i(depth as i64)),
                         ("earlier", J::Arr(earlier.iter().map(|(q, d)| J::obj(vec![("fen", J::s(q.to_fen())), ("depth", J::i(*d as i64))])).collect())),
                         ("game_command", J::s(game_cmd.unwrap_or(""))),
+                        ("direct", J::Bool(direct)),
                         ("node", J::s(qp.to_fen())),
                         ("examined_move", J::s(u.clone())),
                     ]),
@@ -375,6 +418,7 @@ fn c17_search_log_after(earlier: &[(Pos, u8)], game_cmd: Option<&str>, p: &Pos, 
                     ("depth", J::i(depth as i64)),
                     ("earlier", J::Arr(earlier.iter().map(|(q, d)| J::obj(vec![("fen", J::s(q.to_fen())), ("depth", J::i(*d as i64))])).collect())),
                     ("game_command", J::s(game_cmd.unwrap_or(""))),
+                    ("direct", J::Bool(direct)),
                     ("node", J::s(qp.to_fen())),
                     ("engine_only", J::arr_s(extra)),
                     ("missing", J::arr_s(missing)),
@@ -527,7 +571,8 @@ fn replay(ctx: &Ctx, which: Which, case: &J, mg: &MoveGenerator, st: &mut Stats)
         "qlog" => {
             let earlier: Vec<(Pos, u8)> = case.get("earlier").and_then(|a| a.as_arr()).map(|a| a.iter().filter_map(|e| Pos::from_fen(&e.str_of("fen")).ok().map(|q| (q, e.int_of("depth") as u8))).collect()).unwrap_or_default();
             let gc = case.str_of("game_command");
-            c17_search_log_after(&earlier, if gc.is_empty() { None } else { Some(gc.as_str()) }, &p, case.int_of("depth") as u8, st, "replay")
+            let direct = matches!(case.get("direct"), Some(J::Bool(true)));
+            c17_search_log_after(&earlier, if gc.is_empty() { None } else { Some(gc.as_str()) }, &p, case.int_of("depth") as u8, st, "replay", direct)
         }
         "sibling" => {
             let b = eng::board_from_pos(&p);
@@ -657,6 +702,28 @@ pub fn run(ctx: &Ctx) -> i32 {
                     continue;
                 }
                 let d = 1 + rng.below(2) as u8;
+                if done % 4 == 0 {
+                    // positions in which a quiet move or a castle is likely the best move (castle-ready kings,
+                    // early middlegames): searched to depth 2..3, then quiescence directly on what was searched
+                    let q = match rng.below(3) {
+                        0 => gen::g_castle(&mut rng),
+                        1 => {
+                            let n = rng.range(6, 20) as usize;
+                            let (ps, _) = gen::playout(&Pos::start(), &mut rng, n);
+                            ps.last().unwrap().clone()
+                        }
+                        _ => p.clone(),
+                    };
+                    if !q.legal_moves().is_empty() {
+                        if q.legal_moves().iter().any(|m| matches!(m.kind, oracle::MvKind::CastleK | oracle::MvKind::CastleQ)) {
+                            st.bump("direct_quiescence_cases_with_castling_available_at_the_root");
+                        }
+                        c17_quiesce_after_search(&q, 2 + rng.below(2) as u8, &mut st, "quiescence_after_search");
+                        st.bump("direct_quiescence_cases");
+                        done += 1;
+                        continue;
+                    }
+                }
                 if done % 4 == 2 {
                     // a game given with the position command, in which positions near the current one
                     // are on record two or three times: the search runs with that history
@@ -673,7 +740,7 @@ pub fn run(ctx: &Ctx) -> i32 {
                     };
                     if !g.current().legal_moves().is_empty() {
                         let cmd = g.command(None);
-                        c17_search_log_after(&[], Some(&cmd), g.current(), 1 + rng.below(3) as u8, &mut st, "search_log_with_game_history");
+                        c17_search_log_after(&[], Some(&cmd), g.current(), 1 + rng.below(3) as u8, &mut st, "search_log_with_game_history", false);
                         st.bump("searches_logged_with_a_repeating_game_history_on_record");
                         done += 1;
                         continue;
@@ -689,7 +756,7 @@ pub fn run(ctx: &Ctx) -> i32 {
                         if ps.len() > 2 && rng.chance(1, 2) {
                             earlier.push((ps[1].clone(), 2u8));
                         }
-                        c17_search_log_after(&earlier, None, &later, d, &mut st, "search_log_continued_game");
+                        c17_search_log_after(&earlier, None, &later, d, &mut st, "search_log_continued_game", false);
                         st.bump("searches_logged_on_an_engine_that_searched_the_game_before");
                         done += 1;
                         continue;
@@ -728,9 +795,9 @@ fn spec(which: Which, replay: bool) -> Spec<'static> {
         },
         Which::C17 => Spec {
             level: "exploration",
-            rule: "cases are (a) positions not in check on which generate_quiescence_moves is compared with {legal moves that capture, promote or give check} and (b) every quiescence node logged by real depth 1-2 searches (qnodes_logged) — on fresh engines and on engines that have just searched the position two plies earlier in the same game, and after position commands giving games that repeat positions (the search then runs with that history on record), so that the nodes now past the horizon have table entries — compared with that set or, when in check, with all legal moves; a second event log holds every (position, move) the quiescence search actually recursed into, each of which must belong to the expected set of its position; distinct by position identity, non-trivial when the expected set is non-empty / the position is not in check and has legal moves",
+            rule: "cases are (a) positions not in check on which generate_quiescence_moves is compared with {legal moves that capture, promote or give check} and (b) every quiescence node logged by real depth 1-2 searches (qnodes_logged) — on fresh engines and on engines that have just searched the position two plies earlier in the same game, and after position commands giving games that repeat positions (the search then runs with that history on record), so that the nodes now past the horizon have table entries — compared with that set or, when in check, with all legal moves; a second event log holds every (position, move) the quiescence search actually recursed into, each of which must belong to the expected set of its position; direct form: a position is searched to depth 2..3 and the engine's own quiescence search is then called, logged, on it and on up to 120 positions the main search expanded (all of which now have table entries naming quiet moves or castles as best); distinct by position identity, non-trivial when the expected set is non-empty / the position is not in check and has legal moves",
             assumptions,
-            required: if replay { vec![] } else { vec!["q_ep_capture", "q_promotion", "q_quiet_check", "q_discovered_check", "qnodes_logged", "qnodes_in_check", "qnodes_not_in_check", "searches_logged_on_an_engine_that_searched_the_game_before", "quiescence_recursions_logged", "sibling_call_pairs", "searches_logged_with_a_repeating_game_history_on_record", "searches_logged_after_an_offset_perpetual_check_history"] },
+            required: if replay { vec![] } else { vec!["q_ep_capture", "q_promotion", "q_quiet_check", "q_discovered_check", "qnodes_logged", "qnodes_in_check", "qnodes_not_in_check", "searches_logged_on_an_engine_that_searched_the_game_before", "quiescence_recursions_logged", "sibling_call_pairs", "searches_logged_with_a_repeating_game_history_on_record", "searches_logged_after_an_offset_perpetual_check_history", "direct_quiescence_cases", "direct_quiescence_cases_with_castling_available_at_the_root", "quiescence_called_directly_on_positions_the_main_search_had_expanded"] },
             exhaustive: false,
             extra: vec![],
         },
